@@ -107,7 +107,26 @@ def run(sid, tier="quick", props=None):
     return 0
 
 
-def table():
+def table(out=None):
+    import io
+    buf = io.StringIO()
+    _table(buf)
+    text = buf.getvalue()
+    if out is None:
+        print(text)
+    return text
+
+
+def update_design():
+    """rewrite the table between the markers in DESIGN.md."""
+    path = os.path.join(VERIF, "DESIGN.md")
+    s = open(path).read()
+    a, b = "<!-- seeded-table-begin -->", "<!-- seeded-table-end -->"
+    i, j = s.index(a) + len(a), s.index(b)
+    open(path, "w").write(s[:i] + "\n" + table(out=False) + s[j:])
+
+
+def _table(f):
     rows = []
     for sid in sorted(os.listdir(SEEDED)):
         d = os.path.join(SEEDED, sid)
@@ -119,9 +138,12 @@ def table():
         for prop, x in r.items():
             how = "missed" if x["exit"] == 0 else (x["replay"] or {}).get("type", "?") if x["exit"] == 1 else f"exit {x['exit']}"
             cells.append(f"{prop}: {how}")
-        rows.append(f"| {sid} | {m.get('summary', '')[:110]} | {m.get('needs', '')[:80]} | {'; '.join(cells)} |")
-    print("| id | change | needs | result of the check |\n|---|---|---|---|")
-    print("\n".join(rows))
+        clean = lambda t, n: " ".join(str(t).replace("|", "/").split())[:n]
+        rows.append(f"| {sid} | {clean(m.get('summary', ''), 150)} | {clean(m.get('needs', ''), 110)} | {'; '.join(cells)} |")
+    n = len(rows)
+    print(f"{n} kept changes.\n", file=f)
+    print("| id | change | needs | result of the check |\n|---|---|---|---|", file=f)
+    print("\n".join(rows), file=f)
 
 
 if __name__ == "__main__":
@@ -139,3 +161,5 @@ if __name__ == "__main__":
         sys.exit(0)
     if a[0] == "table":
         table()
+    if a[0] == "design":
+        update_design()
